@@ -100,7 +100,7 @@ def s1_submit(ctx):
                     'orders are dequeued only inside the broker update (%s)' % fn.qn, fn.site(n), key='C04.S3|get|%s' % fn.qn)
     ws = writers_of_attr(M, 'open_orders')
     for w in ws:
-        ok = w.fn.cls is not None and w.fn.cls.name == 'SimulatedBroker'
+        ok = w.fn.cls is not None and w.fn.cls.name in M.owner_family('SimulatedBroker')
         ctx.require(ok, 'C04.S3', 'pending queues are touched only by the broker (%s)' % w.fn.qn, w.where, key='C04.S3|writer|%s' % w.fn.qn)
         if w.how.startswith('assign:elem'):
             v = w.node.value if isinstance(w.node, ast.Assign) else None
